@@ -192,6 +192,51 @@ def _covers(exported, cell):
     return True
 
 
+def long_worker(kp, job):
+    """a LONG score with malformed cells far down (line numbers beyond 256, 300 ...): one error each with its line
+    number, exported verbatim in place, the rest as without the damage"""
+    seed, idx = job
+    rng = random.Random(seed * 334214459 + idx)
+    n = rng.randint(330, 420)
+    lines = ['**kern\t**kern', '*clefG2\t*clefF4']
+    notes = ['4c', '4d', '8e', '2f', '4g', '4a', '4b', '4cc']
+    for k in range(n):
+        lines.append(f'={k // 4 + 1}\t={k // 4 + 1}' if k % 4 == 0 else rng.choice(notes) + '\t' + rng.choice(notes))
+    lines += ['*-\t*-']
+    spots = sorted(rng.sample([k for k in range(2, len(lines) - 1) if not lines[k].startswith('=')], 5) +
+                   [max(k for k in range(257, 300) if not lines[k].startswith('='))])
+    bad = sorted(MUST_REJECT - {''})
+    placed = []
+    for k in dict.fromkeys(spots):
+        cells = lines[k].split('\t')
+        ci = rng.randrange(2)
+        m = rng.choice([x for x in bad if '\t' not in x])
+        cells[ci] = m
+        lines[k] = '\t'.join(cells)
+        placed.append((k + 1, ci, m))
+    text = '\n'.join(lines) + '\n'
+    viol = []
+    w = {'text_lines': len(lines), 'malformed': placed}
+    try:
+        doc, errs = kp.loads(text)
+        got = sorted((e.line, e.encoding) for e in errs)
+        exp = sorted((ln, m) for ln, ci, m in placed)
+        if got != exp:
+            viol.append(('one-error-per-cell', f'long score ({len(lines)} lines): errors reported {got}, malformed kern cells {exp}', w))
+        out = kp.dumps(doc).split('\n')
+        src = [l for l in lines]
+        for ln, ci, m in placed:
+            # the export keeps one line per source line here (no comments, no null lines): same line, same column
+            if ln - 1 >= len(out) or out[ln - 1].split('\t')[ci:ci + 1] != [m]:
+                viol.append(('verbatim', f'long score: the malformed cell {m!r} of line {ln} is not exported verbatim in place', w))
+                break
+    except BaseException as e:
+        if e.__class__.__name__ == 'JobTimeout':
+            raise
+        viol.append(('import-succeeds', f'long score ({len(lines)} lines) with malformed cells: {type(e).__name__}', w))
+    return {'records': [engine.rec('long', viol=viol[:2], kind='long-score', key=('long', idx, len(lines)))]}
+
+
 def run(chk):
     b = core.standard_build(chk)
     model = core.Model() if b.modelrun_ok else None
@@ -216,8 +261,9 @@ def run(chk):
     chk.rule = ('(a) histories over one KernSpineImporter: all orders of all subsets of {4c, 4zz, =1, c4}, every malformed '
                 'sample followed by valid cells, random histories of length 2..12 over valid + malformed cells; (b) generated '
                 'documents with 1..4 cells replaced by malformed text (unknown characters, wrong order, truncated, valid + '
-                'garbage) in kern and other spines; non-trivial = distinct history / text')
+                'garbage) in kern and other spines; (c) scores of 330-420 lines with malformed cells far down (line numbers beyond 256); non-trivial = distinct history / text')
     results = engine.pmap(history_worker, hists) + engine.pmap(doc_worker, [(chk.seed, i) for i in range(ndocs)])
+    results += engine.pmap(long_worker, [(chk.seed, i) for i in range(2 if not full else 6)], nproc=6)
     engine.settle(chk, results, model)
     chk.disagreements_checked = len(chk.broken)
 
